@@ -132,3 +132,51 @@ Proof. intros cs now t H. unfold fail_conds. apply get_cond_update_other. exact 
 Theorem fail_shadowed_before_fix :
   exists cs now, is_cond_true (fail_conds_before_fix cs now) CT_CanaryFailed = false.
 Proof. exists [MkCond CT_CanaryFailed CFalse 0 0 0%N 0%N], 5. reflexivity. Qed.
+
+(** a command refuses only when its precondition does not hold or what it asks for is already in place: with an
+    ExtendedDaemonSet to act on, a refusal implies - per command - no active canary / no canary strategy / already paused;
+    nothing to unpause; already validated for this replica set; the canary replica set missing; a canary in progress /
+    already paused (frozen); nothing to unpause (unfreeze) *)
+Theorem refuses_only_when : forall c e rs_exists,
+  run_cmd c (Some e) rs_exists = Refused ->
+  let ann := e_annots e in
+  let has_canary := match es_canary (e_status e) with Some _ => true | None => false end in
+  let has_strategy := match st_canary (e_strategy e) with Some _ => true | None => false end in
+  match c with
+  | CanaryPause => has_canary = false \/ has_strategy = false \/ a3_true (an_canary_paused ann) = true
+  | CanaryUnpause => has_canary = false \/ has_strategy = false \/ a3_true (an_canary_paused ann) = false
+  | CanaryValidate => match es_canary (e_status e) with
+                      | Some cs => an_canary_valid ann = Some (cs_rs cs)
+                      | None => True end
+  | CanaryFail => match es_canary (e_status e) with
+                  | Some cs => has_strategy = false \/ rs_exists (cs_rs cs) = false
+                  | None => True end
+  | RuPause => has_canary = true \/ a3_true (an_rolling_paused ann) = true
+  | RuUnpause => has_canary = true \/ a3_true (an_rolling_paused ann) = false
+  | Freeze => has_canary = true \/ a3_true (an_frozen ann) = true
+  | Unfreeze => has_canary = true \/ a3_true (an_frozen ann) = false
+  end.
+Proof.
+  intros c e rs_exists H. cbv zeta. unfold run_cmd in H.
+  destruct c.
+  - destruct (es_canary (e_status e)) as [cs|]; [|left; reflexivity].
+    destruct (st_canary (e_strategy e)); cbn [negb] in H; [|right; left; reflexivity].
+    destruct (an_canary_paused (e_annots e)); try discriminate. right; right; reflexivity.
+  - destruct (es_canary (e_status e)) as [cs|]; [|left; reflexivity].
+    destruct (st_canary (e_strategy e)); cbn [negb] in H; [|right; left; reflexivity].
+    destruct (an_canary_paused (e_annots e)); try discriminate. right; right; reflexivity.
+  - destruct (es_canary (e_status e)) as [cs|]; [|exact I].
+    destruct (option_eqb N.eqb (an_canary_valid (e_annots e)) (Some (cs_rs cs))) eqn:E; [|discriminate].
+    destruct (an_canary_valid (e_annots e)) as [v|]; cbn in E; [|discriminate]. apply N.eqb_eq in E. subst. reflexivity.
+  - destruct (es_canary (e_status e)) as [cs|]; [|exact I].
+    destruct (st_canary (e_strategy e)); cbn [negb] in H; [|left; reflexivity].
+    destruct (rs_exists (cs_rs cs)); [discriminate | right; reflexivity].
+  - destruct (es_canary (e_status e)) as [cs|]; [left; reflexivity|].
+    destruct (an_rolling_paused (e_annots e)); try discriminate. right; reflexivity.
+  - destruct (es_canary (e_status e)) as [cs|]; [left; reflexivity|].
+    destruct (an_rolling_paused (e_annots e)); try discriminate; right; reflexivity.
+  - destruct (es_canary (e_status e)) as [cs|]; [left; reflexivity|].
+    destruct (an_frozen (e_annots e)); try discriminate. right; reflexivity.
+  - destruct (es_canary (e_status e)) as [cs|]; [left; reflexivity|].
+    destruct (an_frozen (e_annots e)); try discriminate; right; reflexivity.
+Qed.
